@@ -94,7 +94,23 @@ def _new_tabulate(ctx, m, fn, cls: str, absolute: bool) -> bool | None:
     bad, n = [], 0
     try:
         w = durstub.World(m, cls)
-        for kw in NEW_ARGS:
+        args_table = list(NEW_ARGS)
+        if ctx.tier == "thorough":
+            # a deterministic pseudo-random walk over mixed-sign component tuples (linear congruential generator), |component| up to 10^6
+            x = 20261004
+            names = ["days", "seconds", "microseconds", "milliseconds", "minutes", "hours", "weeks", "years", "months"]
+            for _ in range(1500):
+                kw_ = {}
+                for nm in names:
+                    x = (x * 6364136223846793005 + 1442695040888963407) % 2**64
+                    r = (x >> 33) % 7
+                    if r < 3:
+                        continue
+                    x = (x * 6364136223846793005 + 1442695040888963407) % 2**64
+                    mag = [1, 7, 59, 60, 61, 3600, 86399, 86400, 10**6, 999999][(x >> 40) % 10] if nm not in ("years", "months") else [1, 2, 11, 12, 13, 400][(x >> 40) % 6]
+                    kw_[nm] = mag if (x >> 20) % 2 else -mag
+                args_table.append(kw_)
+        for kw in args_table:
             y, mo = kw.get("years", 0), kw.get("months", 0)
             o = w.call("__new__", [w.duration_cls], dict(kw))
             if not isinstance(o, durstub.Obj):
